@@ -1,0 +1,22 @@
+//go:build verif && (freebsd || openbsd || netbsd || dragonfly || darwin)
+
+package fsnotify
+
+// Contracts for backend_kqueue.go, read by /verif's verification-condition
+// generator. Comment-only; compiled only with -tags verif.
+
+// ---- flag translation (C15): transcribed from the Watcher documentation and kevent(2)
+//@ def specOpKqueueRaw(mask uint32) := ite(mask & unix.NOTE_DELETE != 0, Remove, 0) | ite(mask & unix.NOTE_WRITE != 0, Write, 0) |
+//@        ite(mask & unix.NOTE_RENAME != 0, Rename, 0) | ite(mask & unix.NOTE_ATTRIB != 0, Chmod, 0)
+//@ def specOpKqueue(mask uint32) := ite(specOpKqueueRaw(mask) & Remove != 0, specOpKqueueRaw(mask) &^ Write, specOpKqueueRaw(mask))
+
+//@ func (w *kqueue) newEvent(name string, linkName string, mask uint32) (e Event)
+//@   ensures e.Op == specOpKqueue(mask)                                         [C15] "kqueue flags map to the documented operations, the union of the parts, dropping Write when Remove is present"
+//@   ensures e.Name == ite(linkName != "", linkName, name)                      [C18] "events are named under the watched path as the user spelled it"
+//@   ensures e.renamedFrom == ""
+
+//@ func (w *kqueue) xSupports(op Op) (r bool)
+//@   ensures r <==> (op & (xUnportableOpen | xUnportableRead | xUnportableCloseWrite | xUnportableCloseRead) == 0)     [C15] "kqueue supports exactly the portable operations"
+
+//@ lemma noteAllEvents == unix.NOTE_DELETE | unix.NOTE_WRITE | unix.NOTE_ATTRIB | unix.NOTE_RENAME                     [C15] "the flags subscribed for a user watch are exactly those the five portable operations need"
+//@ lemma forall(o, Op, o & (Create | Write | Remove | Rename | Chmod) == o && o & Create == 0 && o != 0 ==> exists(m, uint32, m & ^uint32(noteAllEvents) == 0 && specOpKqueue(m) & o != 0))   [C15] "none of Write, Remove, Rename, Chmod is left unobservable by the subscription (Create comes from directory listing)"
